@@ -548,6 +548,25 @@ func genC06(r *rngT, n int, tier string) {
 			stat("c06-flip")
 		}
 	}
+	// a frame without signature (unsigned v2, v1) is refused on a keyed link WHATEVER message it carries: every message of the
+	// dialect, every id 0..255 without a dialect
+	for _, m := range getDialect("common").Messages {
+		u := validDialectFrame(r, "common", m, 2)
+		execOp(fmt.Sprintf("read common %s 0 %s one", hx(key), encStream(bytesItems(refFrameBytes(u)))))
+		if m.GetID() <= 255 {
+			v := validDialectFrame(r, "common", m, 1)
+			execOp(fmt.Sprintf("read common %s 0 %s one", hx(key), encStream(bytesItems(refFrameBytes(v)))))
+		}
+		stat("c06-unsigned-every-message")
+	}
+	for id := 0; id < 256; id++ {
+		u := randRawFrame(r, 2, false).(*frame.V2Frame)
+		u.Message = &message.MessageRaw{ID: uint32(id), Payload: r.payload(1 + r.Intn(20))}
+		execOp(fmt.Sprintf("read - %s 0 %s one", hx(key), encStream(bytesItems(refFrameBytes(u)))))
+		v := randRawFrame(r, 1, false).(*frame.V1Frame)
+		v.Message = &message.MessageRaw{ID: uint32(id), Payload: r.payload(1 + r.Intn(20))}
+		execOp(fmt.Sprintf("read - %s 0 %s one", hx(key), encStream(bytesItems(refFrameBytes(v)))))
+	}
 	// largest frames: every message of >= 200 bytes, all bytes non-zero, signed (the whole 13-byte block must fit)
 	defineDialect("user")
 	for _, dn := range []string{"common", "user"} {
@@ -643,6 +662,29 @@ func genC07(r *rngT, n int, tier string) {
 		}
 		execOp(fmt.Sprintf("read - %s 0 %s %s", hx(key), encStream(items), randPlan(r)))
 		stat("c07-random-history")
+	}
+	// long runs of refused frames: the verdict on a frame depends on its timestamp and on the newest ACCEPTED one, never on how
+	// many frames were refused before it (a run of 3..40 too-old frames, then frames inside and just outside the window)
+	for i := 0; i < n/6+3; i++ {
+		var items []item
+		base := uint64(3000000) + r.ts48()%(1<<47)
+		items = append(items, bytesItems(signedAt(r, key, base))...)
+		run := 3 + r.Intn(10)
+		if i%4 == 0 {
+			run = 20 + r.Intn(20)
+		}
+		for k := 0; k < run; k++ {
+			old := uint64(k)
+			if r.bool() {
+				old = base - 1000001 - uint64(r.Intn(1500000))
+			}
+			items = append(items, bytesItems(signedAt(r, key, old))...)
+		}
+		for _, d := range []uint64{500000, 1000000, 1000001, 999999} {
+			items = append(items, bytesItems(signedAt(r, key, base-d))...)
+		}
+		execOp(fmt.Sprintf("read - %s 0 %s %s", hx(key), encStream(items), randPlan(r)))
+		stat("c07-refused-run")
 	}
 	// histories with forged frames (wrong key, far-future or far-past timestamps) between valid ones:
 	// only ACCEPTED frames may move the window
